@@ -123,6 +123,8 @@ def gen_tree(rng, comps=None, max_depth=4, root="proj", init_prob=0.7, extra_fil
                 continue
             tree[p] = None
             dirs.append(p)
+            if rng.random() < 0.15:
+                tree[p + "/" + c + ".py"] = ""          # a package holding a module of its own name (config/config.py)
         else:
             p = d + "/" + c + ".py"
             if p in tree or ((d + "/" + c) in tree and not twin_ok):
